@@ -316,7 +316,10 @@ async def worker(
                 if backlog.empty():
                     break
                 else:
-                    continue
+                    # NB: not `continue`! With a zero/negative timeout (e.g. ``idle_timeout=0``),
+                    # `wait_for()` times out before even trying the queue, forever and with no
+                    # suspension point: a busy loop that never processes the event.
+                    raw_event = backlog.get_nowait()
 
             # Exit gracefully and immediately on the end-of-stream marker sent by the watcher.
             if isinstance(raw_event, EOS):
